@@ -348,10 +348,11 @@ type VerifStoreState struct {
 	Unlocked bool
 	HaltID   int64
 	DBs      int
+	Subs     int // registered change-set subscribers (= replicas the node believes are connected)
 }
 
 func VerifSnapshotState(s *Store) VerifStoreState {
-	st := VerifStoreState{Tree: verifTreeDigest(s.path), DBs: len(s.dbs), Unlocked: true}
+	st := VerifStoreState{Tree: verifTreeDigest(s.path), DBs: len(s.dbs), Unlocked: true, Subs: len(s.changeSetSubscribers) + len(s.eventSubscribers)}
 	if db := s.dbs["db"]; db != nil {
 		st.Pos = db.Pos()
 		st.Unlocked = verifAllUnlocked(db)
@@ -363,7 +364,7 @@ func VerifSnapshotState(s *Store) VerifStoreState {
 }
 
 func VerifSameState(a, b VerifStoreState) bool {
-	return verifSameTree(a.Tree, b.Tree) && a.Pos == b.Pos && a.Unlocked == b.Unlocked && a.HaltID == b.HaltID && a.DBs == b.DBs
+	return verifSameTree(a.Tree, b.Tree) && a.Pos == b.Pos && a.Unlocked == b.Unlocked && a.HaltID == b.HaltID && a.DBs == b.DBs && a.Subs == b.Subs
 }
 
 // VerifSetPrimaryInfo makes a replica know its primary.
